@@ -51,9 +51,10 @@ for n, t in (("0", "quick"), ("1", "quick"), ("6", "quick")):
       may_be_uncovered=[] if n == "0" else ["clean end"])
 
 ENC = ("tonic/src/codec/encode.rs", "tonic/codec_encode.rs")
-for (p_, k, l_, t, cap) in ((0, 1, 1, "quick", 400), (0, 1, 0, "quick", 400), (3, 1, 2, "quick", 400), (0, 2, 1, "quick", 900),
-                          (6, 2, 2, "thorough", 2400), (5, 2, 0, "thorough", 2400)):
-    H("enc_step_p%d_k%d_l%d" % (p_, k, l_), ["C01", "C06", "C03", "C02"], "core_vb", *ENC, tier=t, cap_s=cap, mem_gb=20,
+for (p_, k, l_, m_, t, cap) in ((0, 1, 1, 0, "quick", 400), (0, 1, 1, 24, "quick", 400), (0, 1, 1, 1, "quick", 400), (0, 1, 1, 2, "quick", 400),
+                              (0, 1, 1, 4, "quick", 400), (0, 1, 1, 31, "quick", 400), (0, 1, 1, 32, "quick", 400), (0, 1, 1, 64, "quick", 400), (0, 1, 1, 96, "quick", 400), (3, 1, 2, 31, "thorough", 400), (0, 2, 1, 31, "thorough", 900),
+                              (6, 2, 2, 31, "thorough", 2400), (5, 2, 0, 31, "thorough", 2400)):
+    H("enc_step_p%d_k%d_l%d_m%d" % (p_, k, l_, m_), ["C01", "C06", "C03", "C02"], "core_vb", *ENC, tier=t, cap_s=cap, mem_gb=12,
       obligation="E2/L3/W1: one poll of EncodedBytes::poll_next from an arbitrary state is equal to the reference batching model: "
                  "chunk bytes = old buffer ++ reference frames of the messages taken; Pending only when nothing is buffered; an encode "
                  "failure (over limit / encoder error) or source error is handed out after the frames encoded before it, with no byte of "
@@ -95,6 +96,78 @@ for n, t in ((2, "quick"), (3, "thorough")):
                  "=> UNKNOWN error status (regression check for the fixed F1 panic)",
       functions=["tonic::Status::from_header_map", "tonic::util::base64::STANDARD (padding-indifferent)"],
       bounds="details value: all %d-byte header-legal values; 2-entry map" % n)
+
+CMP = ("tonic/src/codec/compression.rs", "tonic/codec_compression.rs")
+UW_NAME = [("http::header::name::", 24), ("HdrName", 24), ("parse_hdr", 24)]
+H("cmp_enabled_set", ["C05"], "comp", *CMP, cap_s=600,
+  obligation="N3: EnabledCompressionEncodings after any <=4 enable() calls: is_enabled/is_empty match the history; the accept header "
+             "value is exactly the enabled names in order + 'identity'; pop removes the last",
+  functions=["EnabledCompressionEncodings::{enable,is_enabled,is_empty,pop,into_accept_encoding_header_value}"],
+  bounds="all sequences of <= 4 enable() calls over {gzip,deflate,zstd}")
+for nm, val in (("gzip", "gzip"), ("deflate", "deflate"), ("identity", "identity"), ("sym4", "any 4 header-legal bytes")):
+    H("cmp_enc_hdr_" + nm, ["C05"], "comp", *CMP, cap_s=900, stubs=[HTTPH],
+      obligation="N2: from_encoding_header on a real 1-entry map: Ok(Some(e)) iff the value names e and e is enabled; identity => Ok(None); "
+                 "otherwise Err(UNIMPLEMENTED)",
+      functions=["CompressionEncoding::from_encoding_header", "http::HeaderMap::{insert,get}"],
+      bounds="grpc-encoding = %s; enabled set: any state reachable by <= 4 enable() calls" % val,
+      may_be_uncovered=["accepted encoding", "identity", "refused"])
+for nm, val in (("zstd_gzip", "'zstd, gzip'"), ("deflate_id", "'deflate,identity'"), ("sym4", "any 4 header-legal bytes"), ("absent", "header absent")):
+    H("cmp_accept_" + nm, ["C05"], "comp", *CMP, cap_s=900, stubs=[HTTPH],
+      obligation="N1: from_accept_encoding_header: the result is the first offered (comma-separated, trimmed) encoding that is enabled "
+                 "for sending; None if there is none (regression check for fixed F3)",
+      functions=["CompressionEncoding::from_accept_encoding_header", "split_by_comma", "http::HeaderMap::{insert,get}"],
+      bounds="grpc-accept-encoding = %s; enabled set: any state reachable by <= 4 enable() calls" % val,
+      may_be_uncovered=["encoding chosen", "identity"] if nm == "absent" else [])
+
+GT = ("tonic/src/transport/service/grpc_timeout.rs", "tonic/grpc_timeout.rs")
+for nm, b, t, cap in (("1", "all 1-byte header-legal values", "quick", 600), ("2", "all 2-byte header-legal values", "quick", 900),
+                      ("3", "all 3-byte header-legal values", "quick", 1200), ("tail_9", "'999999' + any 3 bytes (9 bytes)", "quick", 1200),
+                      ("tail_10", "'9999999' + any 3 bytes (10 bytes)", "thorough", 2400), ("absent", "header absent", "quick", 300)):
+    H("gt_parse_" + nm, ["C09"], "transport", *GT, tier=t, cap_s=cap, stubs=[HTTPH],
+      obligation="G2: try_parse_grpc_timeout on a real 1-entry map == reference grammar (1..8 digits + unit in HMSmun => exact Duration; "
+                 "anything else ignored), no panic",
+      functions=["tonic::transport::service::grpc_timeout::try_parse_grpc_timeout", "http::HeaderMap::{insert,get(&str)}"],
+      bounds="grpc-timeout value: " + b)
+H("gt_select_min", ["C09"], "transport", *GT, cap_s=1200, stubs=[HTTPH, "tokio::time::sleep stubbed: asserts its argument == min(header, configured) and ends the path (no runtime)"],
+  obligation="G4: GrpcTimeout::call arms the timer with min(caller grpc-timeout, configured timeout); no timer when both are absent",
+  functions=["GrpcTimeout::call", "try_parse_grpc_timeout"],
+  bounds="caller timeout absent / '<digit>S' / '<digit>m'; configured timeout: any Option<Duration>",
+  outside=["the race between the inner future and the Sleep in ResponseFuture::poll (needs a tokio timer)"])
+
+RC = ("tonic/src/transport/channel/service/reconnect.rs", "tonic/reconnect.rs")
+for k, t, cap in ((2, "quick", 600), (3, "quick", 900), (4, "thorough", 2400), (5, "thorough", 3600)):
+    H("rc_step_k%d" % k, ["C14"], "transport", *RC, tier=t, cap_s=cap, unwindset=UW_MAPS + [("Reconnect<", 2 * k + 4)],
+      obligation="Reconnect from every state (Idle/Connecting/Connected x saved error x lazy/eager x has_been_connected), one poll_ready "
+                 "against every fault script of %d events, then one call: no 'service not ready' panic; eager+never-connected reports the "
+                 "first connect failure from poll_ready; otherwise a failure is parked, handed to exactly one call (with the id of the "
+                 "failed attempt) and cleared; no new attempt while an error is undelivered; a completed connect future is never polled "
+                 "again; connector ready + connect ok + connection ready => the call reaches the connection" % k,
+      functions=["Reconnect::poll_ready", "Reconnect::call", "reconnect::ResponseFuture::poll"],
+      bounds="all scripts of %d events over {connector ready/pending, connect ok/pending/fail, connection ready/pending/dropped}; "
+             "poll_ready loop bound %d (checked by unwinding assertion)" % (k, 2 * k + 4),
+      outside=["tower Buffer worker, hyper connection tasks, Endpoint::connect*: the end-to-end 'every call completes'"],
+      assumes=["pre-state invariant: a saved error implies state Idle and (has_been_connected or lazy); Connected implies has_been_connected"])
+
+ME = ("tonic/src/metadata/encoding.rs", "tonic/metadata_encoding.rs")
+MM = ("tonic/src/metadata/map.rs", "tonic/metadata_map.rs")
+for n, t, cap in ((0, "quick", 300), (1, "quick", 900), (2, "quick", 1200), (3, "thorough", 3600)):
+    H("md_bin_roundtrip_%d" % n, ["C08", "C04"], "core", *ME, tier=t, cap_s=cap,
+      obligation="M3/H3: Binary::from_bytes writes unpadded standard base64 (== arithmetic reference); decode of that and of the '='-padded "
+                 "spelling both give back the original bytes",
+      functions=["metadata::encoding::Binary::{from_bytes,decode}", "tonic::util::base64::{STANDARD, STANDARD_NO_PAD}"],
+      bounds="all %d-byte values" % n, outside=["values longer than 3 bytes (one base64 quantum)"])
+H("md_key_classification", ["C08"], "core", *ME, cap_s=600,
+  obligation="M4: Binary::is_valid_key(k) <=> k ends with '-bin'; Ascii::is_valid_key == !Binary",
+  functions=["metadata::encoding::{Binary,Ascii}::is_valid_key"], bounds="all ASCII keys of length 0..=7 (symbolic length)")
+for nm in ("te", "user_agent", "content_type", "grpc_status", "grpc_message", "grpc_message_type"):
+    H("md_sanitize_" + nm, ["C08", "C04"], "core", *MM, cap_s=900, stubs=[HTTPH],
+      obligation="M1: into_sanitized_headers on a real 2-entry map {reserved name, user entry} in either order: reserved name absent, user "
+                 "entry intact (reserved names taken from the property statement, not from tonic's array)",
+      functions=["MetadataMap::into_sanitized_headers", "MetadataMap::from_headers", "http::HeaderMap::{insert,remove,get}"],
+      bounds="reserved name '%s'; user value: all 2-byte visible-ASCII values; both insertion orders" % nm.replace("_", "-"))
+H("md_typed_access", ["C08"], "core", *MM, cap_s=900, stubs=[HTTPH],
+  obligation="M4: a one-entry map with key 'x-a' / 'x-a-bin': exactly the accessor (get / get_bin / iter variant) of its kind sees the entry",
+  functions=["MetadataMap::{get,get_bin,iter}"], bounds="2 keys (ASCII, binary)")
 
 
 def select(pid, tier, seed=0):
